@@ -143,7 +143,7 @@ PROPERTY_META = {
     "C12": dict(text="marker bytes per flush mode for all alignments/configurations, byte alignment, full flush clears hash chains and dictionary size, NoSync emits nothing", note=""),
     "C13": dict(text="the wrapper's whole decision table over fully symbolic wrapper state, flush, and engine results (M-decompress contract model)", note=""),
     "C14": dict(text="the wrapper's whole decision table over symbolic engine results (M-compress contract model) plus compress() prologue latching", note=""),
-    "C16": dict(text="running-checksum plumbing (which bytes are fed, when) proved; the algorithms themselves bounded", category="proof", note=""),
+    "C16": dict(text="running-checksum plumbing (which bytes are fed, when) proved; the algorithms themselves bounded", note=""),
     "C20": dict(not_applicable=True, na_reason=(
         "facts about program text and the trait solver (#![forbid(unsafe_code)], no_std builds, auto traits): no "
         "pre/postcondition expresses them and neither Verus nor Kani decides them; the compiler itself would, which is a "
